@@ -1,0 +1,12 @@
+//go:build verif
+
+package chain
+
+// Verification hooks of the round-protocol trace family (/verif, family "roundtrace").
+// Build tag `verif` only; add-only, no behaviour of their own.
+
+// VerifRTFinalizeQueues returns the number of rounds / blocks waiting in the finalization queues
+// (read by FinalizeRoundWorker / FinalizedBlockWorker); a harness uses it as a quiescence barrier.
+func (c *Chain) VerifRTFinalizeQueues() (rounds, blocks int) {
+	return len(c.finalizedRoundsChannel), len(c.finalizedBlocksChannel)
+}
